@@ -231,6 +231,7 @@ def plan_C09(run):
     campaign(run, "saturated-tie-perms", {"C09"}, lambda s, r: drivers.saturated_tie_perms(s, r, "C09", ("win",)))
     campaign(run, "increments", {"C09"}, lambda s, r: drivers.predict_relations(s, r, m))
     run.require_classes(["group:C09:perm", "group:C09:inc"], "relations")
+    campaign(run, "integer-grid", {"C09"}, lambda s, r: drivers.integer_grid(s, r, ("win",)))
     return {"rule": "predict_win on random games: distribution clauses; permuted presentations; one member's mu raised by a ladder of steps from 1 ulp to 10 beta"}
 
 
@@ -247,6 +248,7 @@ def plan_C10(run):
     campaign(run, "saturated-tie-perms", {"C10"}, lambda s, r: drivers.saturated_tie_perms(s, r, "C10", ("draw",)))
     campaign(run, "gap-equalised", {"C10"}, lambda s, r: drivers.predict_relations(s, r, m))
     run.require_classes(["group:C10:perm", "group:C10:gap", "group:C10:equalised"], "relations")
+    campaign(run, "integer-grid", {"C10"}, lambda s, r: drivers.integer_grid(s, r, ("draw",)))
     return {"rule": "predict_draw on random games: range; order independence; two-team widening gaps; equalised totals",
             "assumptions": ["sigma >= 1e-4 beta (below 1e-8 beta the two-team value is 1 + 4e-16, DESIGN 2)"]}
 
@@ -263,6 +265,7 @@ def plan_C11(run):
     m = q(run, 200, 4000)
     campaign(run, "rank-plus-draw", {"C11"}, lambda s, r: drivers.predict_relations(s, r, m))
     run.require_classes(["group:C11:rank_draw"], "relations")
+    campaign(run, "integer-grid", {"C11"}, lambda s, r: drivers.integer_grid(s, r, ("rank",)))
     return {"rule": "predict_rank on random games incl. exactly identical teams: rank/probability consistency on the returned floats; rank + draw = 1 for n >= 3"}
 
 
@@ -276,6 +279,7 @@ def plan_C12(run):
     run.require_classes(PRED_CLASSES, "predict-campaign")
     # predictions on live, repeatedly re-rated objects of one model (caches keyed by identity or id would show here)
     campaign(run, "leagues", {"C12"}, lambda s, r: drivers.leagues(s, r, q(run, 15, 80), q(run, 12, 40), q(run, 60, 400)))
+    campaign(run, "integer-grid", {"C12"}, lambda s, r: drivers.integer_grid(s, r, ("win", "draw", "rank")))
     return {"rule": "all three predictions on random games against the 40-digit closed forms of Predict.tla, 1e-9 absolute",
             "assumptions": ["predict_rank on two teams uses n*beta^2 (the n-team form); band probability as coded (DESIGN 3.2)"]}
 
